@@ -47,6 +47,26 @@ pub fn run(ctx: &Ctx) -> i32 {
         let evens = build_map(n, 2, 0);
         let odds = build_map(n, 2, 1);
         let (fe, fo) = (Fst::new(&evens[..]).unwrap(), Fst::new(&odds[..]).unwrap());
+        // HISTORY of this thread before anything is measured at this scale: completed set operations and streams over a key of
+        // 512 KiB (the bound of an operation is about the longest key of THAT operation, not of earlier ones)
+        if let Err(p) = guard(|| {
+            let long_key = vec![b'L'; 512 << 10];
+            let mut hb = Builder::memory();
+            hb.insert(b"A", 1).unwrap();
+            hb.insert(&long_key, 2).unwrap();
+            let hbytes = hb.into_inner().unwrap();
+            let hf = Fst::new(&hbytes[..]).unwrap();
+            let mut u = OpBuilder::new().add(&hf).add(&hf).add(hf.range().ge("A")).union();
+            while let Some(_) = u.next() {}
+            drop(u);
+            let mut x = OpBuilder::new().add(&hf).add(&hf).intersection();
+            while let Some(_) = x.next() {}
+            drop(x);
+            let mut st = hf.stream();
+            while let Some(_) = st.next() {}
+        }) {
+            ev.violate("traversal-panic", format!("history step (operations over a 512 KiB key) panicked: {}", p), J::Null);
+        }
         let lo = format!("{:010}", n * 3 / 20);
         let hi = format!("{:010}", n * 3 - n * 3 / 20);
         let long_lo = format!("{}{}", lo, "/".repeat(60));
@@ -124,6 +144,18 @@ pub fn run(ctx: &Ctx) -> i32 {
                 c += 1;
             }
             c
+        })));
+        // a search that matches a handful of keys, collected with the library's own collectors: what they reserve must follow what
+        // the search yields, not what the FST stores
+        ops.push(("search(two-key automaton) collected by into_byte_vec / into_byte_keys / into_values".into(), Box::new(|| {
+            let needle = format!("{:010}", 3 * (n / 2));
+            let aut = fst::automaton::Str::new(&needle);
+            let v = fa.search(&aut).into_stream().into_byte_vec();
+            let k = fa.search(&aut).into_stream().into_byte_keys();
+            let w = fa.search(&aut).into_stream().into_values();
+            let m = Map::new(&a[..]).unwrap();
+            let x = m.search(fst::automaton::Subsequence::new(&needle)).into_stream().into_byte_vec();
+            (v.len() + k.len() + w.len() + x.len()) as u64
         })));
         // enumeration through the formatting interface: {:?} of a Map / Set streams every entry into the formatter's writer
         ops.push(("Debug formatting of Map and Set into a discarding writer".into(), Box::new(|| {
